@@ -394,6 +394,24 @@ PARALLEL_TLC = 7
 WORKERS_PER_TLC = 2
 
 
+MAX_BYTES_PER_RUN = 24 * 1000 * 1000      # (estimated) size of one input file: the JSON reader gives up on very large documents
+
+
+def _weight(t):
+    """rough size of a trace as JSON"""
+    w = 200 + 70 * len(t.get("init", []))
+    for e in t["events"]:
+        w += 300 + 70 * (len(e.get("store", [])) + len(e["a"].get("ps", [])))
+        io = e.get("io")
+        if io:
+            w += 70 * (sum(len(s) for s in io.get("snaps", [])) + len(io.get("file", [])) + len(io.get("reopened", []))) + 30 * len(io.get("calls", []))
+        f = e.get("fault")
+        if f:
+            w += 70 * (len(f.get("scan", [])) + len(f.get("file_now", [])) + len(f.get("final", [])) + len(f.get("rm", {}).get("scan", []))) \
+                + 100 * len(json.dumps(f.get("reads", []))) // 100
+    return w
+
+
 def judge(traces, workers=16, timeout=3000):
     """Returns ({trace id: verdict dict}, stats).  The traces are judged by several TLC processes side by side
     (chunks of bounded size, grouped by auto_index); `workers` only caps the parallelism."""
@@ -405,12 +423,14 @@ def judge(traces, workers=16, timeout=3000):
         part = [t for t in traces if t["auto_index"] == ai]
         chunk, n = [], 0
         chunks = []
+        size = 0
         for t in part:
             chunk.append(t)
             n += len(t["events"]) + 1
-            if n >= MAX_EVENTS_PER_RUN:
+            size += _weight(t)
+            if n >= MAX_EVENTS_PER_RUN or size >= MAX_BYTES_PER_RUN:
                 chunks.append(chunk)
-                chunk, n = [], 0
+                chunk, n, size = [], 0, 0
         if chunk:
             chunks.append(chunk)
         todo += [(c, ai) for c in chunks]
